@@ -22,10 +22,11 @@ class LEB128(int, BaseType):
         shift = 0
         while True:
             b = stream.read(1)
-            if b == b"":
+            if not b:
                 raise EOFError("EOF reached, while final LEB128 byte was not yet read")
 
-            b = ord(b)
+            # (indexing a character of a stream that is not binary gives no number: that is an error, not a value)
+            b = b[0] + 0
             result |= (b & 0x7F) << shift
             shift += 7
             if (b & 0x80) == 0:
